@@ -400,7 +400,7 @@ KindOf(F) == [rel |-> F.rel, rng |-> F.rng, lab |-> F.lab]
 
 WriteEdges(b, f, es) ==
     /\ LiveForest(f) /\ \A x \in 1..Len(es) : LiveEdge(es[x]) /\ edges[es[x]].f = f
-    /\ files' = (b :> [kind |-> KindOf(fors[f]), sizes |-> FSizes(f),
+    /\ files' = (b :> [kind |-> KindOf(fors[f]), sizes |-> FSizes(f), rule |-> fors[f].rule,
                        fns |-> [x \in 1..Len(es) |-> edges[es[x]].fn]]) @@ files
     /\ err' = "ok"
     /\ UNCHANGED <<lib, doms, fors, edges, nextFid>>
